@@ -111,3 +111,311 @@ theorem added_of_add (s0 s1 : St) (v : JV) (hw0 : WF s0)
       simp [hdoc, hadd']
 
 end OjgVerif.Json
+
+namespace OjgVerif.Json
+open OjgVerif
+
+/-- a literal mode, its word and its value -/
+structure LitSpec (m : Mode) (w : Bytes) (v : JV) : Prop where
+  tok : ∀ (s : St) (x : UInt8), s.mode = m → ∃ k, stepToken refTables s x =
+      if w.getD (s.ri + 1) 0 = x then
+        (if w.length - 1 ≤ s.ri + 1 then ({ s with ri := s.ri + 1, mode := .after } : St).add v
+         else .ok { s with ri := s.ri + 1 })
+      else .error (s.err k)
+  act : ∀ x, expected m x = .tokenOk ∨ expected m x = .charErr
+  fin : expectedFin m = .absent
+  nv : ∀ nm, needVal m nm = true
+  notAfter : m ≠ .after
+
+theorem litSpec_null : LitSpec .null [110, 117, 108, 108] .null where
+  tok := by
+    intro s x hm
+    refine ⟨.expNull, ?_⟩
+    unfold stepToken
+    have h1 : refTables.act s.mode 114 ≠ .tokenOk := by rw [hm]; decide
+    have h2 : refTables.act s.mode 97 ≠ .tokenOk := by rw [hm]; decide
+    have h3 : (refTables.act s.mode 117 = .tokenOk && refTables.act s.mode 108 = .tokenOk) = true := by rw [hm]; decide
+    simp only [h1, h2, h3, ↓reduceIte, List.length_cons, List.length_nil]
+  act := by
+    intro x
+    simp only [expected]
+    split <;> simp
+  fin := rfl
+  nv := fun _ => rfl
+  notAfter := by decide
+
+theorem litSpec_true : LitSpec .true_ [116, 114, 117, 101] (.bool true) where
+  tok := by
+    intro s x hm
+    refine ⟨.expTrue, ?_⟩
+    unfold stepToken
+    have h1 : refTables.act s.mode 114 = .tokenOk := by rw [hm]; decide
+    simp only [h1, ↓reduceIte, List.length_cons, List.length_nil]
+  act := by
+    intro x
+    simp only [expected]
+    split <;> simp
+  fin := rfl
+  nv := fun _ => rfl
+  notAfter := by decide
+
+theorem litSpec_false : LitSpec .false_ [102, 97, 108, 115, 101] (.bool false) where
+  tok := by
+    intro s x hm
+    refine ⟨.expFalse, ?_⟩
+    unfold stepToken
+    have h1 : refTables.act s.mode 114 ≠ .tokenOk := by rw [hm]; decide
+    have h2 : refTables.act s.mode 97 = .tokenOk := by rw [hm]; decide
+    simp only [h1, h2, ↓reduceIte, List.length_cons, List.length_nil]
+  act := by
+    intro x
+    simp only [expected]
+    split <;> simp
+  fin := rfl
+  nv := fun _ => rfl
+  notAfter := by decide
+
+
+/-- the machine is inside a literal that started in value position `s0` -/
+structure InLit (m : Mode) (s0 s : St) : Prop where
+  mode : s.mode = m
+  starts : s.starts = s0.starts
+  stack : s.stack = s0.stack
+  docs : s.docs = s0.docs
+  next : s.nextMode = .colon ∨ s.nextMode = .after
+
+/-- one byte inside a literal: a wrong byte is an error -/
+theorem lit_step_bad {m : Mode} {w : Bytes} {v : JV} (L : LitSpec m w v) (s : St) (x : UInt8)
+    (hm : s.mode = m) (hx : w.getD (s.ri + 1) 0 ≠ x) : ∃ e, step refTables cfg1 s x = .error e := by
+  unfold step stepAct
+  rcases L.act x with ha | ha
+  · have : refTables.act s.mode x = .tokenOk := by rw [hm]; exact ha
+    obtain ⟨k, htok⟩ := L.tok s x hm
+    simp only [this, htok, hx, ↓reduceIte, bind, Except.bind]
+    exact ⟨_, rfl⟩
+  · have : refTables.act s.mode x = .charErr := by rw [hm]; exact ha
+    simp only [this]
+    exact ⟨_, rfl⟩
+
+/-- one byte inside a literal: the expected letter, not the last one -/
+theorem lit_step_mid {m : Mode} {w : Bytes} {v : JV} (L : LitSpec m w v) (s : St) (x : UInt8)
+    (hm : s.mode = m) (hx : w.getD (s.ri + 1) 0 = x) (hact : expected m x = .tokenOk)
+    (hlast : ¬ (w.length - 1 ≤ s.ri + 1)) :
+    step refTables cfg1 s x = .ok { s with ri := s.ri + 1, pos := s.pos + 1, inFast := false } := by
+  unfold step stepAct
+  have : refTables.act s.mode x = .tokenOk := by rw [hm]; exact hact
+  obtain ⟨k, htok⟩ := L.tok s x hm
+  simp only [this, htok, hx, hlast, ↓reduceIte, bind, Except.bind, pure, Except.pure, Bool.false_eq_true]
+  have hd : deliver refTables cfg1 { s with ri := s.ri + 1 } = { s with ri := s.ri + 1 } := by
+    unfold deliver
+    have : refTables.fin s.mode ≠ .a := by rw [hm]; show expectedFin m ≠ .a; rw [L.fin]; decide
+    simp [this]
+  rw [hd]
+
+
+/-- `WF` only looks at mode, nextMode, starts and stack -/
+theorem WF.of_core {s s' : St} (h : WF s) (hm : s'.mode = s.mode) (hn : s'.nextMode = s.nextMode)
+    (hs : s'.starts = s.starts) (hk : s'.stack = s.stack) : WF s' := by
+  refine ⟨⟨?_, ?_, ?_⟩, ?_, ?_, ?_⟩
+  · rw [hm, hs]; exact h.ctl.after
+  · rw [hm, hs]; exact h.ctl.comma
+  · rw [hn]; exact h.ctl.next
+  · rw [hm, hn, hs]; exact h.obj
+  · rw [hm, hs]; exact h.arr
+  · rw [hm, hn, hs, hk]; exact h.shape
+
+theorem Added.of_core {s0 s1 s2 : St} {v : JV} (h : Added s0 v s1) (hm : s2.mode = s1.mode)
+    (hn : s2.nextMode = s1.nextMode) (hs : s2.starts = s1.starts) (hk : s2.stack = s1.stack)
+    (hd : s2.docs = s1.docs) : Added s0 v s2 := by
+  obtain ⟨hw, hst, hc⟩ := h
+  refine ⟨hw.of_core hm hn hs hk, hs.trans hst, ?_⟩
+  cases h0 : s0.starts with
+  | nil => rw [h0] at hc; simp only at hc ⊢; rw [hm, hk, hd]; exact hc
+  | cons x ss => rw [h0] at hc; simp only at hc ⊢; rw [hm, hk, hd]; exact hc
+
+/-- one byte inside a literal: the last letter completes the value -/
+theorem lit_step_last {m : Mode} {w : Bytes} {v : JV} (L : LitSpec m w v) (s0 s : St) (x : UInt8)
+    (hv : ValPos s0) (hin : InLit m s0 s) (hx : w.getD (s.ri + 1) 0 = x) (hact : expected m x = .tokenOk)
+    (hlast : w.length - 1 ≤ s.ri + 1) :
+    ∃ s', step refTables cfg1 s x = .ok s' ∧ Added s0 v s' := by
+  have hsh : Shape s0.starts s0.stack true := by
+    have := hv.wf.shape; rw [needVal_of_valpos hv] at this; exact this
+  obtain ⟨st', hadd, hadded⟩ := added_of_add s0 { s with ri := s.ri + 1 } v hv.wf hsh
+    ⟨hin.starts, hin.stack, hin.docs⟩ hin.next
+  unfold step stepAct
+  have : refTables.act s.mode x = .tokenOk := by rw [hin.mode]; exact hact
+  obtain ⟨k, htok⟩ := L.tok s x hin.mode
+  simp only [this, htok, hx, hlast, ↓reduceIte, bind, Except.bind, pure, Except.pure, Bool.false_eq_true]
+  have hadd' : ({ s with ri := s.ri + 1, mode := Mode.after } : St).add v =
+      .ok { s with ri := s.ri + 1, mode := Mode.after, stack := st' } := hadd
+  rw [hadd']
+  simp only
+  exact ⟨_, rfl, hadded.of_core rfl rfl rfl rfl rfl⟩
+
+
+theorem drop_eq_getD_cons (w : Bytes) (k : Nat) (h : k < w.length) : w.drop k = w.getD k 0 :: w.drop (k + 1) := by
+  rw [List.drop_eq_getElem_cons h]
+  simp [List.getD, List.getElem?_eq_getElem h]
+
+theorem exec_nil_of_absent (s : St) (h : expectedFin s.mode = .absent) : exec s [] = none := by
+  unfold exec
+  simp only [runBytes]
+  unfold finish
+  have : refTables.fin s.mode = .absent := h
+  simp [this]
+
+/-- running the rest of a literal: success adds the value; anything else is rejected -/
+theorem lit_exec {m : Mode} {w : Bytes} {v : JV} (L : LitSpec m w v)
+    (hlet : ∀ i, 1 ≤ i → i < w.length → expected m (w.getD i 0) = .tokenOk)
+    (s0 : St) (hv : ValPos s0) :
+    ∀ (n : Nat) (s : St), InLit m s0 s → s.ri + 1 + n + 1 = w.length →
+      (∀ rest, ∃ s', Added s0 v s' ∧ exec s (w.drop (s.ri + 1) ++ rest) = exec s' rest) ∧
+      (∀ bs, ¬ (w.drop (s.ri + 1)) <+: bs → exec s bs = none) := by
+  intro n
+  induction n with
+  | zero =>
+    intro s hin hlen
+    have hk : s.ri + 1 < w.length := by omega
+    have hdrop : w.drop (s.ri + 1) = [w.getD (s.ri + 1) 0] := by
+      rw [drop_eq_getD_cons w _ hk]
+      have : w.drop (s.ri + 1 + 1) = [] := List.drop_eq_nil_of_le (by omega)
+      rw [this]
+    have hact := hlet (s.ri + 1) (by omega) hk
+    obtain ⟨s', hstep, hadded⟩ := lit_step_last L s0 s _ hv hin rfl hact (by omega)
+    constructor
+    · intro rest
+      refine ⟨s', hadded, ?_⟩
+      rw [hdrop]
+      simp only [List.singleton_append, exec_cons, hstep]
+    · intro bs hpre
+      rw [hdrop] at hpre
+      cases bs with
+      | nil => exact exec_nil_of_absent s (by rw [hin.mode]; exact L.fin)
+      | cons y r =>
+        have hy : w.getD (s.ri + 1) 0 ≠ y := by
+          intro h; apply hpre; rw [h]; exact ⟨r, rfl⟩
+        obtain ⟨e, he⟩ := lit_step_bad L s y hin.mode hy
+        rw [exec_cons, he]
+  | succ n ih =>
+    intro s hin hlen
+    have hk : s.ri + 1 < w.length := by omega
+    have hdrop := drop_eq_getD_cons w _ hk
+    have hact := hlet (s.ri + 1) (by omega) hk
+    have hstep := lit_step_mid L s _ hin.mode rfl hact (by omega)
+    have hin1 : InLit m s0 { s with ri := s.ri + 1, pos := s.pos + 1, inFast := false } :=
+      ⟨hin.mode, hin.starts, hin.stack, hin.docs, hin.next⟩
+    obtain ⟨ih1, ih2⟩ := ih _ hin1 (by simp only; omega)
+    constructor
+    · intro rest
+      obtain ⟨s', hadded, hex⟩ := ih1 rest
+      refine ⟨s', hadded, ?_⟩
+      rw [hdrop]
+      simp only [List.cons_append, exec_cons, hstep]
+      exact hex
+    · intro bs hpre
+      rw [hdrop] at hpre
+      cases bs with
+      | nil => exact exec_nil_of_absent s (by rw [hin.mode]; exact L.fin)
+      | cons y r =>
+        by_cases hy : w.getD (s.ri + 1) 0 = y
+        · rw [exec_cons, ← hy, hstep]
+          apply ih2
+          intro hp
+          apply hpre
+          rw [← hy]
+          obtain ⟨t, ht⟩ := hp
+          exact ⟨t, by simp only [List.cons_append]; rw [ht]⟩
+        · obtain ⟨e, he⟩ := lit_step_bad L s y hin.mode hy
+          rw [exec_cons, he]
+
+
+theorem startsWith_some (bs p rest : Bytes) : Spec.startsWith bs p = some rest ↔ bs = p ++ rest := by
+  induction p generalizing bs with
+  | nil => cases bs <;> simp [Spec.startsWith, eq_comm]
+  | cons x q ih =>
+    cases bs with
+    | nil => simp [Spec.startsWith]
+    | cons b r =>
+      simp only [Spec.startsWith]
+      by_cases hb : b = x
+      · subst hb; simp [ih]
+      · simp only [hb, ↓reduceIte, List.cons_append, List.cons.injEq, false_and]
+        exact ⟨(fun h => nomatch h), (fun h => nomatch h)⟩
+
+theorem startsWith_none (bs p : Bytes) : Spec.startsWith bs p = none ↔ ¬ p <+: bs := by
+  constructor
+  · intro h ⟨t, ht⟩
+    have := (startsWith_some bs p t).mpr ht.symm
+    rw [h] at this; cases this
+  · intro h
+    cases hs : Spec.startsWith bs p with
+    | none => rfl
+    | some rest => exact absurd ⟨rest, ((startsWith_some bs p rest).mp hs).symm⟩ h
+
+/-- the first byte of a literal in value position -/
+theorem step_valLit (s : St) (h : ValPos s) (b : UInt8) (m : Mode)
+    (hact : ∀ md, md = Mode.value ∨ md = Mode.comma → expected md b =
+      (if m = .null then Act.valNull else if m = .true_ then Act.valTrue else Act.valFalse))
+    (hm : m = .null ∨ m = .true_ ∨ m = .false_) :
+    step refTables cfg1 s b = .ok { s with mode := m, ri := 0, pos := s.pos + 1, inFast := false } := by
+  have ha := hact s.mode h.mode
+  unfold step stepAct
+  have hd : ∀ md, md = Mode.null ∨ md = Mode.true_ ∨ md = Mode.false_ →
+      deliver refTables cfg1 { s with mode := md, ri := 0 } = { s with mode := md, ri := 0 } := by
+    intro md hmd
+    unfold deliver
+    rcases hmd with h | h | h <;> simp [refTables, expectedFin, h]
+  rcases hm with hm | hm | hm <;> subst hm <;>
+    simp only [show refTables.act s.mode b = _ from ha, Bool.false_eq_true, ↓reduceIte, reduceCtorEq] <;>
+    rw [hd _ (by simp)]
+
+/-- **Literals.** In value position, `null` / `true` / `false` add their value; any other
+continuation of the first letter is rejected. -/
+theorem exec_literal (s0 : St) (hv : ValPos s0) (b : UInt8) (m : Mode) (w : Bytes) (v : JV) (r : Bytes)
+    (hcase : (b = 110 ∧ m = .null ∧ w = [110, 117, 108, 108] ∧ v = .null) ∨
+             (b = 116 ∧ m = .true_ ∧ w = [116, 114, 117, 101] ∧ v = .bool true) ∨
+             (b = 102 ∧ m = .false_ ∧ w = [102, 97, 108, 115, 101] ∧ v = .bool false)) :
+    (∀ rest, Spec.startsWith r w.tail = some rest → ∃ s', Added s0 v s' ∧ exec s0 (b :: r) = exec s' rest) ∧
+    (Spec.startsWith r w.tail = none → exec s0 (b :: r) = none) := by
+  have key : ∀ (L : LitSpec m w v) (hlet : ∀ i, 1 ≤ i → i < w.length → expected m (w.getD i 0) = .tokenOk)
+      (hlen : 3 ≤ w.length)
+      (hstep : step refTables cfg1 s0 b = .ok { s0 with mode := m, ri := 0, pos := s0.pos + 1, inFast := false }),
+      (∀ rest, Spec.startsWith r w.tail = some rest → ∃ s', Added s0 v s' ∧ exec s0 (b :: r) = exec s' rest) ∧
+      (Spec.startsWith r w.tail = none → exec s0 (b :: r) = none) := by
+    intro L hlet hlen hstep
+    have hin : InLit m s0 { s0 with mode := m, ri := 0, pos := s0.pos + 1, inFast := false } :=
+      ⟨rfl, rfl, rfl, rfl, hv.wf.ctl.next⟩
+    obtain ⟨h1, h2⟩ := lit_exec L hlet s0 hv (w.length - 2) _ hin (by simp only; omega)
+    have htail : w.drop (0 + 1) = w.tail := by cases w <;> rfl
+    simp only [htail] at h1 h2
+    constructor
+    · intro rest hs
+      obtain ⟨s', hadded, hex⟩ := h1 rest
+      refine ⟨s', hadded, ?_⟩
+      rw [(startsWith_some r w.tail rest).mp hs, exec_cons, hstep]
+      exact hex
+    · intro hs
+      rw [exec_cons, hstep]
+      exact h2 r ((startsWith_none r w.tail).mp hs)
+  rcases hcase with ⟨rfl, rfl, rfl, rfl⟩ | ⟨rfl, rfl, rfl, rfl⟩ | ⟨rfl, rfl, rfl, rfl⟩
+  · refine key litSpec_null ?_ (by decide) ?_
+    · intro i h1 h2
+      simp only [List.length_cons, List.length_nil] at h2
+      have : i = 1 ∨ i = 2 ∨ i = 3 := by omega
+      rcases this with h | h | h <;> subst h <;> decide
+    · exact step_valLit s0 hv 110 .null (by intro md h; rcases h with h | h <;> subst h <;> decide) (Or.inl rfl)
+  · refine key litSpec_true ?_ (by decide) ?_
+    · intro i h1 h2
+      simp only [List.length_cons, List.length_nil] at h2
+      have : i = 1 ∨ i = 2 ∨ i = 3 := by omega
+      rcases this with h | h | h <;> subst h <;> decide
+    · exact step_valLit s0 hv 116 .true_ (by intro md h; rcases h with h | h <;> subst h <;> decide) (Or.inr (Or.inl rfl))
+  · refine key litSpec_false ?_ (by decide) ?_
+    · intro i h1 h2
+      simp only [List.length_cons, List.length_nil] at h2
+      have : i = 1 ∨ i = 2 ∨ i = 3 ∨ i = 4 := by omega
+      rcases this with h | h | h | h <;> subst h <;> decide
+    · exact step_valLit s0 hv 102 .false_ (by intro md h; rcases h with h | h <;> subst h <;> decide) (Or.inr (Or.inr rfl))
+
+
+end OjgVerif.Json
